@@ -135,7 +135,7 @@ def check_edge_bookkeeping(rep, prop='C13'):
 
     eng = EdgeEngine(inline_ok=lambda f: False, unknown_ok=True)
     FuncVC(rep, prop, LT.LoadTracer.run, name, eng, own_kinds=None).run(start, post, None)
-    rep.assume('edge bookkeeping: 0 <= state[1] <= max_index on entry and edges has max_index + 1 entries (established by get_edges / next_block; not under VC)')
+    rep.assume('edge bookkeeping: 0 <= state[1] <= max_index on entry and edges has max_index + 1 entries (established by get_edges - not under VC - and by next_block: its contract, props/fastloadvc.py, puts the tape on the edge after the skipped block, which lies inside the edge list)')
 
 
 def check_fast_load_bookkeeping(rep, prop='C13'):
